@@ -543,8 +543,12 @@ def structures(draw, max_res=40, min_res=2, allow_ball=True, allow_hetero=True, 
         if prot_atoms and nhet:
             grid = Grid(prot_atoms)
             hnum = 900
+            prev = None
             for _ in range(nhet):
-                if draw(st.integers(0, 3)) == 0:
+                if prev is not None and draw(st.integers(0, 2)) == 0:
+                    # a second copy of the same molecule in the same chain (labels of its groups then coincide)
+                    resn, mol, kindl, hchain_prev = prev
+                elif draw(st.integers(0, 3)) == 0:
                     resn = draw(st.sampled_from(sorted(IONS)))
                     mol = [(IONS[resn], 0, 0, 0)]
                     kindl = "ion:" + resn
@@ -557,6 +561,9 @@ def structures(draw, max_res=40, min_res=2, allow_ball=True, allow_hetero=True, 
                 d0 = draw(st.integers(0, len(DIRECTIONS) - 1))
                 rot = pdbio.ROTATIONS[draw(st.integers(0, 23))]
                 hchain = draw(st.sampled_from([anchor.chain, anchor.chain, "L", "H"]))
+                if prev is not None and (resn, mol, kindl) == prev[:3]:
+                    hchain = prev[3]
+                prev = (resn, mol, kindl, hchain)
                 placed = None
                 for k in range(6):
                     d = DIRECTIONS[(d0 + k * 7) % len(DIRECTIONS)]
